@@ -130,6 +130,13 @@ def structural_c16(chk, descs):
             not_copied |= set(x for k, x in why if k == "reads-member-not-copied")
             not_assigned |= set(x for k, x in why if k == "reads-member-not-assigned")
             bad_rc |= set(x for k, x in why if k == "reads-shared-heap-with-bad-refcount")
+        for m in mi.mutator_offenders():
+            miss = mi.mutator_missing(m)
+            chk.fail_input(om.msite(m), "mutator-leaves:" + ",".join(miss),
+                           {"class": name, "method": om.mname(m), "writes": m.get("mut_writes"), "parameter_members": d.get("param_members")},
+                           "a member that re-parameterises the object in place rewrites every parameter-derived member and resets every cache",
+                           "%s leaves %s" % (m["name"], ",".join(miss)),
+                           "description generated from the source: after %s the object is not the object a constructor would build from the new parameters" % m["name"])
         if not_copied:
             chk.fail_input("%s::copy-constructor" % name, "not-copied:" + ",".join(sorted(not_copied)),
                            {"class": name, "copy_map": d.get("copy_map")}, "every member read by an operation is copied from the same member of the source",
@@ -481,6 +488,8 @@ def main(tier, replay=None):
         chk.cov["claimed_const_methods"] = n_meth
         chk.cov["methods_decided_self_contained"] = n_ok
         chk.cov["outside_proved_fragment"] = sorted(set(partial))[:40]
+        chk.cov["mutators_decided"] = sorted("%s::%s writes %s" % (d["name"], m["name"], ",".join(m.get("mut_writes", [])))
+                                             for d in descs if d["name"] not in NO_VERDICT for m in d["methods"] if om.Mirror(d).is_mutator(m))[:40]
         chk.cov["classes"] = describe_for_evidence(descs)
         chk.cov["translator"] = {k: meta.get(k) for k in ("ast_objects", "decls_indexed", "classes_in_dump", "stats", "cached", "seconds", "nested_domain_members")}
         for d in descs:
